@@ -98,28 +98,28 @@ Print Assumptions C19_accepts_domain_MinFlowDecomp.
 
 (* ---------------------------------------------------------------- kMinPathError *)
 Theorem C19_validate_sound_kMinPathError : forall i, validate_kMinPathError i = RaiseValueError -> in_domain_kMinPathError i = false.
-Proof. exact validate_sound_kErrDAG. Qed.
+Proof. exact (validate_sound_kErrDAG true). Qed.
 Print Assumptions C19_validate_sound_kMinPathError.
 
 Theorem C19_validate_complete_kMinPathError : forall i, in_domain_kMinPathError i = false -> deviates_kErrDAG i = false -> validate_kMinPathError i = RaiseValueError.
-Proof. exact validate_complete_kErrDAG. Qed.
+Proof. exact (validate_complete_kErrDAG true). Qed.
 Print Assumptions C19_validate_complete_kMinPathError.
 
 Theorem C19_accepts_domain_kMinPathError : forall i, in_domain_kMinPathError i = true -> has_live i = true -> validate_kMinPathError i = Accept.
-Proof. exact accepts_domain_kErrDAG. Qed.
+Proof. exact (accepts_domain_kErrDAG true). Qed.
 Print Assumptions C19_accepts_domain_kMinPathError.
 
 (* ---------------------------------------------------------------- kLeastAbsErrors *)
 Theorem C19_validate_sound_kLeastAbsErrors : forall i, validate_kLeastAbsErrors i = RaiseValueError -> in_domain_kLeastAbsErrors i = false.
-Proof. exact validate_sound_kErrDAG. Qed.
+Proof. exact (validate_sound_kErrDAG false). Qed.
 Print Assumptions C19_validate_sound_kLeastAbsErrors.
 
 Theorem C19_validate_complete_kLeastAbsErrors : forall i, in_domain_kLeastAbsErrors i = false -> deviates_kErrDAG i = false -> validate_kLeastAbsErrors i = RaiseValueError.
-Proof. exact validate_complete_kErrDAG. Qed.
+Proof. exact (validate_complete_kErrDAG false). Qed.
 Print Assumptions C19_validate_complete_kLeastAbsErrors.
 
 Theorem C19_accepts_domain_kLeastAbsErrors : forall i, in_domain_kLeastAbsErrors i = true -> has_live i = true -> validate_kLeastAbsErrors i = Accept.
-Proof. exact accepts_domain_kErrDAG. Qed.
+Proof. exact (accepts_domain_kErrDAG false). Qed.
 Print Assumptions C19_accepts_domain_kLeastAbsErrors.
 
 (* ---------------------------------------------------------------- kPathCover *)
@@ -295,21 +295,14 @@ Theorem C19_validate_MinFlowDecompCycles_refuted_nonconserving :
   exists i, in_domain_MinFlowDecompCycles i = false /\ validate_MinFlowDecompCycles i = AcceptsButUnsolved.
 Proof. exact validate_MinFlowDecompCycles_refuted_nonconserving. Qed.
 Print Assumptions C19_validate_MinFlowDecompCycles_refuted_nonconserving.
-(* k and solution_weights_superset: kFlowDecomp validates the caller's k before and independently of the given weights *)
+(* k and solution_weights_superset (29f2322): every k-model validates the caller's k before and independently of the given weights *)
 Theorem C19_kFlowDecomp_k_checked_independently_of_given_weights : forall i,
-  k_own_bad i = true -> validate_kFlowDecomp i <> Accept.
+  k_bad i = true -> validate_kFlowDecomp i <> Accept.
 Proof. exact kFlowDecomp_k_checked_independently_of_given_weights. Qed.
 Print Assumptions C19_kFlowDecomp_k_checked_independently_of_given_weights.
-(* OPEN kErrDAG:accepted:invalid-k-with-solution_weights_superset *)
-Theorem C19_validate_kLeastAbsErrors_refuted_k_with_given_weights :
-  exists i, in_domain_kLeastAbsErrors i = false /\ k_bad i = true /\ validate_kLeastAbsErrors i = Accept.
-Proof. exact validate_kErrDAG_refuted_k_with_given_weights. Qed.
-Print Assumptions C19_validate_kLeastAbsErrors_refuted_k_with_given_weights.
-(* OPEN kFlowDecomp:accepted:bool-k-with-solution_weights_superset *)
-Theorem C19_validate_kFlowDecomp_refuted_bool_k_with_given_weights :
-  exists i, in_domain_kFlowDecomp i = false /\ validate_kFlowDecomp i = Accept.
-Proof. exact validate_kFlowDecomp_refuted_bool_k_with_given_weights. Qed.
-Print Assumptions C19_validate_kFlowDecomp_refuted_bool_k_with_given_weights.
+Theorem C19_kErrDAG_k_checked_first : forall none_ok i, k_bad_gen none_ok i = true -> validate_kErrDAG none_ok i = RaiseValueError.
+Proof. exact kErrDAG_k_checked_first. Qed.
+Print Assumptions C19_kErrDAG_k_checked_first.
 (* MinFlowDecompCycles:ValueError:node-mode-additional-starts *)
 Theorem C19_accepts_domain_MinFlowDecompCycles_refuted_node_mode_starts :
   exists i, in_domain_MinFlowDecompCycles i = true /\ has_live i = true /\ validate_MinFlowDecompCycles i = RaiseValueError.
@@ -395,6 +388,17 @@ Theorem C19_old_validate_kPathCover_refuted_coverage_length :
 Proof. exact old_validate_kPathCover_refuted_coverage_length. Qed.
 Print Assumptions C19_old_validate_kPathCover_refuted_coverage_length.
 
+(* repaired by 29f2322: [old_validate_kErrDAG] / [old_validate_kFlowDecomp] are the current validators with the k handling of the
+   code before it (no own test in kLeastAbsErrors / kMinPathError; `k <= 0 or not isinstance(k, int)` in kFlowDecomp) *)
+Theorem C19_old_validate_kErrDAG_refuted_k_with_given_weights :
+  exists i, in_domain_kErrDAG false i = false /\ k_bad i = true /\ old_validate_kErrDAG i = Accept.
+Proof. exact old_validate_kErrDAG_refuted_k_with_given_weights. Qed.
+Print Assumptions C19_old_validate_kErrDAG_refuted_k_with_given_weights.
+Theorem C19_old_validate_kFlowDecomp_refuted_bool_k_with_given_weights :
+  exists i, in_domain_kFlowDecomp i = false /\ old_validate_kFlowDecomp i = Accept.
+Proof. exact old_validate_kFlowDecomp_refuted_bool_k_with_given_weights. Qed.
+Print Assumptions C19_old_validate_kFlowDecomp_refuted_bool_k_with_given_weights.
+
 (* repaired by 65c87ad *)
 Theorem C19_old_accepts_domain_MinPathCoverCycles_refuted_lowerbound_ignores_starts :
   exists i, ValidateOld.in_domain_MinPathCoverCycles i = true /\ ValidateOld.validate_MinPathCoverCycles i = ValidateOld.RaiseValueError.
@@ -435,6 +439,10 @@ Example C19_nonvacuous_invalid :
   (* an invalid k is rejected by kFlowDecomp with and without given weights *)
   validate_kFlowDecomp (set_superset k0 true) = RaiseValueError /\ validate_kFlowDecomp (set_superset kf true) = RaiseValueError /\
   validate_kFlowDecomp (set_k ex_dag (KBool true)) = RaiseValueError /\ validate_kFlowDecomp (set_superset ex_dag true) = Accept /\
+  validate_kFlowDecomp (set_superset (set_k ex_dag (KBool true)) true) = RaiseValueError /\
+  validate_kLeastAbsErrors (set_superset k0 true) = RaiseValueError /\ validate_kMinPathError (set_superset kf true) = RaiseValueError /\
+  validate_kLeastAbsErrors (set_k ex_dag KNone) = RaiseValueError /\ validate_kMinPathError (set_k ex_dag KNone) = Accept /\
+  in_domain_kMinPathError (set_k ex_dag KNone) = true /\ validate_kMinPathError (set_k ex_dag KStr) = RaiseValueError /\
   (* a graph whose only cycle is a self-loop is not a DAG *)
   in_domain_kFlowDecomp (set_loop_pct ex_dag true PNone PNone) = false /\ validate_kFlowDecomp (set_loop_pct ex_dag true PNone PNone) = RaiseValueError /\
   validate_stDAG (set_loop_pct ex_dag true PNone PNone) = RaiseValueError /\
